@@ -8,6 +8,22 @@ PROPS = [json.loads(l)["id"] for l in (VERIF / "properties.jsonl").read_text().s
 
 # property -> (technique, level text, level note, design ref)
 CLAIMED = {
+    "C03": (
+        "CFG path queries (dominators, must-pass-through, pairing) over the save chain; cache-drop obligation in Document.set_part",
+        "Partial, structural. Decides on every path of the current source that unread parts are fetched before any writer runs, that every "
+        "parsed XML part is re-serialised into the container before container.save (no filter but None), that the zip writer writes each live "
+        "part exactly once and skips deleted parts (folder writer likewise), that a raw write of an XML part drops the stale parsed copy, and that "
+        "names/encodings agree between readers and writers. Does not decide infoset equality of lxml output, byte identity or the readers.",
+        "Trusted: zipfile, pathlib and lxml primitives; R11/R15 give purity of serialize().",
+        "DESIGN.md §4 C03"),
+    "C04": (
+        "CFG dominance on the zip writer; part<->manifest pairing analysis; control-dependence of the manifest append; constant resolution of ZIP_STORED",
+        "Partial, structural. Decides that 'mimetype' is written exactly once, first (dominates every other writestr) and with zipfile.ZIP_STORED, "
+        "that nothing is written after the manifest, that every non-XML part written into / deleted from the container in document.py is paired "
+        "with manifest.add_full_path / del_full_path on the same path expression on every normal path (or is manifest-driven), that add_full_path "
+        "appends only under the entry's absence, and that the template path updates the root media type. Manifests of opened documents are not decided.",
+        "Trusted: zipfile entry order; Document.set_part/Container.set_part themselves are the raw pass-through API (frozen exception).",
+        "DESIGN.md §4 C04"),
     "C06": (
         "ast table extraction: isinstance-chain lattice order; encoder/decoder attribute+codec table agreement; sibling dispatcher agreement",
         "Partial, structural. Decides for every isinstance dispatch chain in the package that no arm is shadowed by a superclass arm "
